@@ -396,6 +396,18 @@ def retract_cases(seed):
                  "at 0 : wr f1 2", "at 2 : wr f1 1 ; wr f0 1",
                  f"do reg f0 100 ; try f1 {Fa} ; heal f1 ; reg f1 {Fb} ; trel t0 30000000", "main"]
             cases.append((f"reregister-{METHOD_NAME[m]}-{k}", L))
+        # a descriptor collected as ready loses ALL its handlers to the handler that runs first, which also consumes its readiness; later
+        # (another iteration) its handlers are set again while only another band holds: no handler may run for the stale band
+        for vi, (F1, later, cond) in enumerate([("100", "setin f1 1 ; setout f1 1", ""), ("110", "setin f1 1 ; setout f1 1", ""),
+                                                ("100", "setout f1 1", ""), ("101", "setin f1 1 ; seterr f1 1", "fill f1 ; "),
+                                                ("100", "setin f1 1", "")]):
+            for order in (0, 1):
+                stim = ["wr f0 1", "wr f1 1"][::-1 if order else 1]
+                L = ([f"exclude {m}"] if m else []) + ["cfg waitlimit=12 cblimit=100", "obj fd f0 sock", "obj fd f1 sock", "obj timer t0", "obj timer t9",
+                     "on f0.in 1 : rd f0 ; ?setin f1 0 ; ?setout f1 0 ; ?seterr f1 0 ; rd f1", "on f0.in 2 : rd f0", "on f1.in * : rd f1",
+                     "on f1.out * : ?setout f1 0", f"on t0 1 : {cond}{later}", "on t9 1 : ?unreg f0 ; ?unreg f1",
+                     "at 0 : " + " ; ".join(stim), f"do reg f0 100 ; reg f1 {F1} ; trel t0 5000000 ; trel t9 30000000", "main"]
+                cases.append((f"phantom-{METHOD_NAME[m]}-{vi}-o{order}", L))
         # iv_fd_register_try on a HEALTHY descriptor while the registration probe (poll/ppoll methods) is interrupted by a signal: it must
         # succeed all the same, on every method
         for k in (1, 2):
@@ -487,6 +499,14 @@ def ktimer_cases(seed, methods=METHODS):
                 L = ([f"exclude {m}"] if m else []) + ["cfg waitlimit=12 cblimit=60", "obj timer t0", "obj timer t1", "obj timer t2",
                      "on t1 1 : trel t2 3000000", "on t2 1 : tunreg t0", "do " + " ; ".join(regs[::-1] if order else regs), "main"]
                 cases.append((f"ktimer-{METHOD_NAME[m]}-far{vi}-{order}", L))
+        # several timers come due in the SAME iteration; the handler that runs first unregisters another one of the batch and (or) registers
+        # it again, later / earlier / with the same expiry: a cancelled timer does not fire, a re-armed one fires once at its new time
+        for vi, manip in enumerate(["tunreg t1", "tunreg t1 ; trel t1 200000000", "tunreg t1 ; trel t1 0", "tunreg t1 ; trel t1 1000",
+                                    "tunreg t1 ; tunreg t2 ; trel t2 70000000 ; trel t1 90000000", "tunreg t2 ; trel t2 5000000 ; tunreg t1"]):
+            L = ([f"exclude {m}"] if m else []) + ["cfg waitlimit=14 cblimit=80", "obj timer t0", "obj timer t1", "obj timer t2", "obj timer t9",
+                 f"on t0 1 : {manip}", "on t9 1 : ?tunreg t0 ; ?tunreg t1 ; ?tunreg t2",
+                 "do trel t0 1000000 ; trel t1 1000001 ; trel t2 1000500 ; trel t9 900000000", "main"]
+            cases.append((f"ktimer-{METHOD_NAME[m]}-samebatch{vi}", L))
         # deadlines whose distance from `now` is not a whole number of milliseconds, with no other activity: millisecond-granular waits
         # (poll, epoll_wait fallback) must round up, so that one wake-up suffices
         for vi, d in enumerate([20900000, 1000001, 999999, 1, 2000500, 1999999999]):
